@@ -14,6 +14,9 @@
 (*   fracExp / allExp   fractional / full credit expiration in time units (0 = off)               *)
 (*   bootFree   the machine boots with free_play: yes                                             *)
 (*   evCredits  credits granted by the configured credit event                                    *)
+(* A coin value may be any positive number of units: smaller than a game, or a bill worth several *)
+(* times the highest tier price (the tier counter wraps around several times within ONE insertion *)
+(* and every full tier passed on the way earns its bonus).                                        *)
 (* Deviations: names of code-as-is behaviours that contradict the statement of C20; with          *)
 (* Deviations = {} the model is the intended behaviour (this is what is model-checked and what    *)
 (* traces are validated against); the other settings are only used to classify rejected traces.   *)
@@ -77,6 +80,18 @@ PressF(st) ==
          ELSE st
 GameEnd(st, t) == LET g == [st EXCEPT !.game = FALSE, !.players = 0, !.cur = 0, !.ball = 0]
                   IN IF Free(st) THEN g ELSE ResetTimeouts([g EXCEPT !.rflag = FALSE], t)
+\* two start requests in the same instant (two buttons tagged start hit together, the add-player event posted twice
+\* by one handler): the statement wants every accepted one to be paid for by a full game price of its own, i.e. the
+\* second request sees the balance the first one left.  From attract the second press reaches the attract mode while
+\* the game is starting; whether it then adds a second player is not C20's business (both outcomes allowed when
+\* "press2both" is in Ops: model checking and trace validation; schedule generation follows the first outcome only).
+\* code as is (Deviation SameTickGate): both player_add_request events are answered before either player_added handler
+\* deducts, so both pass the gate on the same balance and the second deduction is clamped at zero
+Press2Results(st) ==
+    LET a == PressF(st)
+    IN IF Dev("SameTickGate") /\ st.game /\ ~Free(st) /\ st.ball = 1 /\ st.units >= Upg
+       THEN {Deduct(Deduct([st EXCEPT !.players = @ + 2]))}
+       ELSE IF ~st.game THEN (IF "press2both" \in Ops THEN {a, PressF(a)} ELSE {a}) ELSE {PressF(a)}
 DrainF(st, t) == IF st.cur < st.players THEN BallStarting([st EXCEPT !.cur = @ + 1])
                  ELSE IF st.ball < BallsPerGame THEN BallStarting([st EXCEPT !.cur = 1, !.ball = @ + 1])
                  ELSE GameEnd(st, t)
@@ -94,6 +109,9 @@ Coin(i) == /\ i \in 1..Len(cfg.coins) /\ ~(NoUnits /\ ~Free(s)) /\ s.paid + cfg.
 Service == Call("service", ServiceN(s, s.hn), [op |-> "service"])
 Event   == Call("event", EventN(s, now, s.hn), [op |-> "event"])
 Press   == Call("press", PressF(s), [op |-> "press"])
+\* (not offered where the second request would hit max_players: that limit is not part of C20)
+Press2  == /\ (s.game => s.players + 2 <= cfg.maxPlayers)
+           /\ \E st2 \in Press2Results(s) : Call("press2", st2, [op |-> "press2"])
 Drain   == s.game /\ Call("drain", DrainF(s, now), [op |-> "drain"])
 EnableFree   == Call("free", [s EXCEPT !.hn = 0], [op |-> "free"])
 EnableCredit == Call("credit", [s EXCEPT !.hn = IF Dev("DupHandlers") THEN @ + 1 ELSE 1], [op |-> "credit"])
@@ -104,7 +122,7 @@ Adv == /\ now < MaxTime /\ ("advidle" \in Ops \/ TimerPending)
        /\ ~(NoUnits /\ s.fracAt = now + 1)          \* code as is: modulo by zero, see CreditsTrace!Crash
        /\ now' = now + 1 /\ s' = ExpireF(s, now + 1) /\ act' = [op |-> "adv"] /\ UNCHANGED <<cfg, nops>>
 Next == \/ \E i \in 1..3 : Coin(i)
-        \/ Service \/ Event \/ Press \/ Drain \/ EnableFree \/ EnableCredit \/ Toggle \/ Reset \/ Adv
+        \/ Service \/ Event \/ Press \/ Press2 \/ Drain \/ EnableFree \/ EnableCredit \/ Toggle \/ Reset \/ Adv
 Spec == Init /\ [][Next]_vars
 \* ---- statement of C20 ------------------------------------------------------------------------------------
 TypeOK == /\ now \in 0..MaxTime /\ s.hn \in 0..1 /\ s.prog \in 0..(W - 1) /\ s.game \in BOOLEAN
@@ -118,6 +136,20 @@ ClosedForm == s.bonusAcc = BonusTotal(s.paid) /\ s.prog = s.paid % W
 CoinExact == [][ (act'.op = "coin" /\ ~Free(s)) =>
     LET v == cfg.coins[act'.i].v
     IN s'.units = CapIntended(s.units + v + BonusTotal(s.paid + v) - BonusTotal(s.paid)) ]_vars
+\* every full tier earns its bonus, also several tiers within ONE insertion: a coin worth k whole wrap-arounds of the
+\* tier table (plus a rest) earns at least k times the bonus of the whole table and at most k + 1 times
+EveryTierInOneCoin == [][ (act'.op = "coin" /\ ~Free(s)) =>
+    LET v == cfg.coins[act'.i].v
+        k == v \div W
+    IN /\ s'.units >= CapIntended(s.units + v + k * Bonus(W))
+       /\ s'.units <= s.units + v + (k + 1) * Bonus(W)
+       /\ s'.bonusAcc - s.bonusAcc >= k * Bonus(W) ]_vars
+\* the money paid since the last tier reset buys the same whatever the denominations: v single units one after the
+\* other (each looked up in the table at its own position, wrapping after the highest tier) give what one coin of v gives
+RECURSIVE UnitByUnit(_, _)
+UnitByUnit(p, n) == IF n = 0 THEN 0 ELSE Table((p % W) + 1) + UnitByUnit(p + 1, n - 1)
+DenominationFree == [][ (act'.op = "coin" /\ ~Free(s)) =>
+    s'.bonusAcc - s.bonusAcc = UnitByUnit(s.paid, cfg.coins[act'.i].v) ]_vars
 \* service credits and credit events add whole games without touching the tier progress
 NonTieredExact == [][ (act'.op \in {"service", "event"} /\ ~Free(s)) =>
     /\ s'.units = CapIntended(s.units + (IF act'.op = "service" THEN 1 ELSE cfg.evCredits) * cfg.upg)
@@ -133,8 +165,14 @@ StartGate == [][ act'.op = "press" =>
     /\ (~s.game /\ (Free(s) \/ s.units >= cfg.upg)) => Accepted
     /\ (~Accepted \/ Free(s)) => s'.units = s.units
     /\ (s.game /\ ~Accepted) => s'.players = s.players ]_vars
+\* one game price per player started, also when several start requests arrive in the same instant
+StartsPaid == [][ act'.op \in {"press", "press2"} =>
+    LET k == s'.players - s.players                 \* players started by this action (s.players = 0 outside a game)
+    IN /\ k >= 0
+       /\ ~Free(s) => (s.units >= k * cfg.upg /\ s'.units = s.units - k * cfg.upg)
+       /\ Free(s) => s'.units = s.units ]_vars
 \* only start requests, expirations and resets lower the balance; expirations follow the two rules
-OnlyTheseLower == [][ s'.units < s.units => act'.op \in {"press", "adv", "reset"} ]_vars
+OnlyTheseLower == [][ s'.units < s.units => act'.op \in {"press", "press2", "adv", "reset"} ]_vars
 ExpiryRules == [][ act'.op = "adv" =>
     /\ s'.units \in {s.units, s.units - (s.units % cfg.upg), 0}
     /\ (s'.units # s.units => (s.fracAt = now' \/ s.allAt = now')) ]_vars
